@@ -148,6 +148,19 @@ def covOf (w0 w1 : World) (op : Op) (res : Res) : List String :=
   | .del, _ => ["del-" ++ rep w0.node]
   | _, _ => []
 
+/-- A claimed size beyond the 8-byte source object that no length guard refuses makes the model fault
+(memcpy reads past the source) — after it has materialised an allocation of that size.  The driver
+reports that fault without building a 2 GiB cell list. -/
+def claimFault (w : World) (op : Op) : Option String :=
+  match w.node, op with
+  | none, .newn k =>
+    if k > claimSource.length ∧ ¬ (k ≥ StrStore.INT_MAX - Generated.strNewIntGuardSlack) then
+      some "new: memcpy(jso->c_string.idata, s, len): reads past the source object" else none
+  | some _, .setn k =>
+    if k > claimSource.length ∧ ¬ (k ≥ StrStore.INT_MAX - Generated.strSetGuardSlack) then
+      some "set: memcpy(dstbuf, s, len): reads past the source object" else none
+  | _, _ => none
+
 def step (s : St) (wds : List String) : St × Out :=
   match parseOp wds with
   | none => (s, { model := "bad-op", spec := "bad-op" })
@@ -155,6 +168,9 @@ def step (s : St) (wds : List String) : St × Out :=
     match s.w with
     | none => (s, { model := "model-faulted-earlier" })
     | some w =>
+      match claimFault w op with
+      | some why => ({ s with w := none }, { model := "FAULT " ++ why, spec := "no-fault" })
+      | none =>
       match StrStore.step w op with
       | .fault why => ({ s with w := none }, { model := "FAULT " ++ why, spec := "no-fault" })
       | .ok (w1, res) =>
